@@ -19,8 +19,9 @@ Two layers.
 
 The specification layer is `FeatSpec` (a rows x columns table of cells per feature, `Grid.pick`
 for row selection = Python list semantics); the theorems of `Props/C07.lean`, `Props/C08.lean`
-hold for every `FeatOps` with a `FeatSpec`, and `Dense` is proved to have one in
-`Proofs/Frame.lean`.
+hold for every `FeatOps` with a `FeatSpec`; `Dense` is proved to have one in `Proofs/Frame.lean`
+(`denseSpec`) and the concrete `Feat` (dense | MultiNestedTensor | MultiEmbeddingTensor | dict) in
+`Proofs/FrameRagged.lean` (`featSpec`, from the C05/C06 storage refinement lemmas).
 -/
 import TFVerif.Model.Ragged
 
